@@ -233,6 +233,7 @@ def _work(ob: Ob, known: List[Dict[str, Any]], conn):
             rp = replay_subprocess(ob.harness, ob.params, tv.cex)
             res["replays"] += 1
             res["twin"]["replay"] = {k: rp.get(k) for k in ("ok", "reached", "exc", "skipped")}
+            res["twin"]["replay_full"] = rp
             if rp.get("ok") is not True or not rp.get("reached"):
                 # the claim fails concretely on the witness => it is a real counterexample
                 # candidate, handled below by the claim run; only complain if claim confirms.
@@ -261,9 +262,19 @@ def _work(ob: Ob, known: List[Dict[str, Any]], conn):
                             "detail": cv.detail[:1500]}
             if cv.status == "confirmed":
                 if ob.twin and res["twin"].get("witness_claim_failed"):
-                    res["status"] = "harness_error"
-                    res["messages"].append("claim confirmed symbolically but the twin witness violates it concretely through the "
-                                           "text route: injection route and text route disagree: " + json.dumps(res["twin"]))
+                    # The witness was replayed through the public text route in a fresh /venv/bin/python process and the
+                    # claim fails there: a reproduced failing input against the real code.  (Typical cause: behaviour that
+                    # depends on what the same process did before, which the exploration inside one worker cannot see.)
+                    wit = res["twin"]["witness"]
+                    cex = {"values": wit, "detail": "claim holds on every explored path inside the worker but fails on the twin witness "
+                                                    "replayed in a fresh process through the literal-text route", "replay": res["twin"].get("replay_full")}
+                    matched = _match_known(known, ob.oid, _unjson(wit) if isinstance(wit, dict) else {}, exclude)
+                    if matched is not None:
+                        res["known"].append({"id": matched["id"], "what": matched["what"], "cex": cex})
+                        res["status"] = "confirmed"
+                    else:
+                        res["status"] = "violated"
+                        res["cex"] = cex
                 else:
                     res["status"] = "confirmed"
                 break
